@@ -30,12 +30,20 @@ def split_variants(eng, st, e, r, name_hint="opt"):
     outs = []
     for vi, fs in e.variants:
         ns = st.fork() if len(e.variants) > 1 else st
+        try:
+            one = eng.M.refine_enum(ns, e, {vi})
+        except Dead:
+            continue
         if r is not None and len(e.variants) > 1:
-            eng.M.write_path(ns, r.loc, r.path, Enum(e.ty, ((vi, fs),), e.name))
-        if len(e.variants) > 1:
+            eng.M.write_path(ns, r.loc, r.path, one)
+        if len(e.variants) > 1 and eng._want_partition(fr_of(eng), 0, "variant", e.name):
             ns.key = ns.key + (("variant", e.name, eng.T.variant_name(e.ty, vi)),)
         outs.append((ns, vi, fs))
     return outs
+
+
+def fr_of(eng):
+    return None
 
 
 def call_closure(eng, st, fr, fnv, args, site):
@@ -164,6 +172,10 @@ def c_opt_is(eng, st, fr, f, args, site):
     if e is None:
         return None
     want_some = f["path"].endswith("is_some")
+    if len(e.variants) == 1:
+        return [(st, TRUE if (e.variants[0][0] == 1) == want_some else FALSE)]
+    if r is not None:
+        return [(st, Bool(("isvar", r.loc, r.path, eng.T.variant_discr(e.ty, 1), want_some)))]
     outs = []
     for ns, vi, fs in split_variants(eng, st, e, r):
         outs.append((ns, TRUE if (vi == 1) == want_some else FALSE))
@@ -176,6 +188,10 @@ def c_res_is(eng, st, fr, f, args, site):
     if e is None:
         return None
     want_ok = f["path"].endswith("is_ok")
+    if len(e.variants) == 1:
+        return [(st, TRUE if (e.variants[0][0] == 0) == want_ok else FALSE)]
+    if r is not None:
+        return [(st, Bool(("isvar", r.loc, r.path, eng.T.variant_discr(e.ty, 0), want_ok)))]
     outs = []
     for ns, vi, fs in split_variants(eng, st, e, r):
         outs.append((ns, TRUE if (vi == 0) == want_ok else FALSE))
